@@ -138,7 +138,7 @@ func runC09(c *Ctx) {
 		maxPat, maxPath = 4, 5
 	}
 	c.Exhaustive = true
-	c.Rule = fmt.Sprintf("all patterns of the segment grammar (literal | placeholder | trailing /*) with <= %d segments over {a, b, empty, id, x} x all paths with <= %d segments over {a, b, 1, empty} (plus query strings for keyMatch5), for keyMatch2/3/4/5 and keyGet2/3 (after regexMatch has been called on every pattern text and on its regex translation: the answers must not depend on what was called before), against the Lean model (rendered pattern text) and the Lean segment semantics (bounded-exhaustive); raw pattern strings over {/ a : { } * ? .} for the boundary of the modelled regex fragment; keyMatch/keyGet over all short strings; random IPv4 and IPv6 addresses/CIDRs incl. boundary prefix lengths and malformed text; every call is also made through the function registered under the built-in's name in model.LoadFunctionMap() (what a matcher calls) and must give the same answer; IPv6 on the implementation only: every address against four spellings of a second address (as given, upper case, all groups written out, leading zeros), as a single address and as its /128, against net.IP equality; every IPv4 address also in its IPv4-mapped spelling (::ffff:a.b.c.d) and every IPv4 prefix as the mapped /96+n prefix: same answers; non-trivial = a pattern with a placeholder or wildcard on which some path matches and some does not; distinct = (function, pattern)", maxPat, maxPath)
+	c.Rule = fmt.Sprintf("all patterns of the segment grammar (literal | placeholder | trailing /*) with <= %d segments over {a, b, empty, id, x} x all paths with <= %d segments over {a, b, 1, empty} (plus query strings for keyMatch5), for keyMatch2/3/4/5 and keyGet2/3 (after regexMatch has been called on every pattern text and on its regex translation: the answers must not depend on what was called before), against the Lean model (rendered pattern text) and the Lean segment semantics (bounded-exhaustive); raw pattern strings over {/ a : { } * ? .} for the boundary of the modelled regex fragment; keyMatch/keyGet over all short strings; random IPv4 and IPv6 addresses/CIDRs incl. boundary prefix lengths and malformed text; request paths with percent escapes, a leading //, several ? and a fragment against literal, placeholder and wildcard patterns (paths are taken literally); every call is also made through the function registered under the built-in's name in model.LoadFunctionMap() (what a matcher calls) and must give the same answer; IPv6 on the implementation only: every address against four spellings of a second address (as given, upper case, all groups written out, leading zeros), as a single address and as its /128, against net.IP equality; every IPv4 address also in its IPv4-mapped spelling (::ffff:a.b.c.d) and every IPv4 prefix as the mapped /96+n prefix: same answers; non-trivial = a pattern with a placeholder or wildcard on which some path matches and some does not; distinct = (function, pattern)", maxPat, maxPath)
 	segAlpha := []pseg{{false, "a"}, {false, "b"}, {false, ""}, {true, "id"}, {true, "x"}}
 	var patterns [][]pseg
 	var recP func(cur []pseg)
@@ -264,6 +264,20 @@ func runC09(c *Ctx) {
 		}
 		c.Count("raw_patterns", 1)
 	}
+	// request paths are taken literally: percent escapes are not decoded, a leading "//" is not a host, only the
+	// first "?" starts the query string keyMatch5 ignores
+	literalPaths := []string{"/files/a%2Fb", "/files/a/b", "/users/%61lice", "/users/alice", "//tenant/admin", "/admin", "/a%3Fb?x=1", "/a?b", "/a?x=/b", "/files/a%2Fb?y=%2F",
+		"/x/../admin", "/admin#frag", "/ADMIN", "/admin/", "http://h/admin"}
+	literalPatterns := []string{"/files/a/b", "/files/a%2Fb", "/files/{dir}/{name}", "/files/{name}", "/files/:name", "/users/%61lice", "/users/alice", "/admin", "/{x}", "/a", "/a%3Fb", "/*", "/admin/*", "/files/*"}
+	for _, p := range literalPaths {
+		for _, pat := range literalPatterns {
+			for _, fn := range []string{"keyMatch", "keyMatch2", "keyMatch3", "keyMatch4", "keyMatch5"} {
+				c.W.Op(fmt.Sprintf("km %s %s %s", fn, proto.Enc(p), proto.Enc(pat)), kmImpl(fn, p, pat, ""))
+				c.Evals++
+			}
+		}
+	}
+	c.Count("literal_path_cases", len(literalPaths)*len(literalPatterns))
 	// IP addresses
 	nIP := 3000
 	if c.Thorough() {
